@@ -33,6 +33,8 @@ class Ctl(object):
         self.log = []
         self.salt = 0        # varies the class of the exception a vetoing hook raises (set per operation)
         self.nested = False  # inside a structural call made by a hook
+        self.pinned = set()  # labels of nodes whose class refuses any change of their parent (classes overriding `parent`)
+        self.armed = False
 
     def register(self, node):
         self.ids[id(node)] = len(self.nodes)
@@ -191,8 +193,67 @@ def make_classes(ctl):
         def __len__(self):
             return len(self.children)
 
+    class NMP(NM):
+        """a user class that overrides the public `parent` attribute to refuse moves of pinned nodes; every detach and
+        attach the library performs goes through this attribute"""
+
+        @property
+        def parent(self):
+            return NodeMixin.parent.fget(self)
+
+        @parent.setter
+        def parent(self, value):
+            if ctl.armed and ctl.label(self) in ctl.pinned:
+                raise anytree.TreeError("node %d is pinned" % ctl.label(self))
+            NodeMixin.parent.fset(self, value)
+
+    class LTP(LT):
+        """... and its LightNodeMixin twin"""
+        __slots__ = ()
+
+        @property
+        def parent(self):
+            return LightNodeMixin.parent.fget(self)
+
+        @parent.setter
+        def parent(self, value):
+            if ctl.armed and ctl.label(self) in ctl.pinned:
+                raise anytree.TreeError("node %d is pinned" % ctl.label(self))
+            LightNodeMixin.parent.fset(self, value)
+
+    class NMS(NM):
+        """a user class that uses the names of derived read-only attributes for data of its own (a file-system entry whose
+        `path` is a string, ...): the structural calls are defined by the parent links alone and never consult them"""
+        path = "/a/string/path"
+        ancestors = "not-a-tuple-of-nodes"
+        root = None
+        depth = -3
+        height = -3
+        siblings = None
+        descendants = None
+        leaves = None
+        is_leaf = True
+        is_root = True
+        size = 0
+
+    class LTS(LT):
+        """... and its LightNodeMixin twin"""
+        __slots__ = ()
+        path = "/a/string/path"
+        ancestors = "not-a-tuple-of-nodes"
+        root = None
+        depth = -3
+        height = -3
+        siblings = None
+        descendants = None
+        leaves = None
+        is_leaf = True
+        is_root = True
+        size = 0
+
     return {"mixin": NM, "node": ND, "anynode": AN, "symlink": SL, "light": LT, "eqmixin": EQ, "lighteq": LTEQ,
-            "falsynode": NDF, "lenany": ANL, "falsymixin": NMF, "lightfalsy": LTF}
+            "falsynode": NDF, "lenany": ANL, "falsymixin": NMF, "lightfalsy": LTF, "shadowmixin": NMS, "lightshadow": LTS,
+            "pinmixin": NMP, "lightpin": LTP}
 
 
 class NotANode(object):
@@ -270,7 +331,10 @@ def _impl(case):
         return ctl.nodes[v]
 
     out = []
-    for op in case["ops"]:
+    ctl.pinned = set(case.get("pinned") or ())
+    arm_at = case.get("pin_after", 0)
+    for opi, op in enumerate(case["ops"]):
+        ctl.armed = bool(ctl.pinned) and opi >= arm_at
         opkey[0] = len(repr(sorted((k, repr(v)) for k, v in op.items() if k != "faults")))
         ctl.begin(op.get("faults"))
         ctl.salt = opkey[0]
